@@ -128,14 +128,14 @@ impl<D: DataT, E: FromBoxError> MultipartStream<D, E> {
         self.cur.is_none() && self.state == 2 * self.ranges@.len() + 1 && self.remaining == 0
     }
 
-    //@fn src/serving.rs :: impl MultipartStream :: fn new props=C01,C02,C06,C12 rules=T_stream
+    //@fn src/serving.rs :: impl MultipartStream :: fn new props=C01,C02,C06,C12,C13 rules=T_stream
     fn new(entity: EntityBox<D, E>, part_headers: Vec<Vec<u8>>, ranges: Vec<std::ops::Range<u64>>, len: u64) -> (r: Self)
         requires
             part_headers@.len() == ranges@.len(), ranges@.len() <= 0x07ff_ffff_ffff_ffff,
             forall|j: int| 0 <= j < ranges@.len() ==> (#[trigger] ranges@[j]).start <= ranges@[j].end,
             len as int == rest(part_headers@, ranges@, 0),
         ensures
-            /*@C01,C06,C12 #new_wf*/ r.wf(),
+            /*@C01,C06,C12,C13 #new_wf*/ r.wf(),
             /*@C01,C12 #new_remaining*/ r.remaining == len,
             /*@C02,C06 #new_fields*/ r.state == 0 && r.cur.is_none() && r.part_headers == part_headers && r.ranges == ranges && r.entity == entity,
     //@body
@@ -147,12 +147,12 @@ impl<D: DataT, E: FromBoxError> MultipartStream<D, E> {
     //@body
     //@end
 
-    //@fn src/serving.rs :: impl Stream for MultipartStream :: fn poll_next props=C01,C02,C06,C07,C12,C20 implicit=C13,C20 rules=R1,R5,T_stream
+    //@fn src/serving.rs :: impl Stream for MultipartStream :: fn poll_next props=C01,C02,C06,C07,C12,C13,C20 implicit=C13,C20 rules=R1,R5,T_stream
     fn poll_next(&mut self, cx: &mut Context) -> (r: Poll<Option<Result<D, E>>>)
         requires old(self).wf(),
         ensures
-            /*@C01,C06,C07,C12,C20 #wf_preserved shared*/ !(r matches Poll::Ready(Some(Err(_)))) ==> final(self).wf(),
-            /*@C12,C20 #wf_after_error*/ (r matches Poll::Ready(Some(Err(_)))) ==> final(self).wf(),
+            /*@C01,C06,C07,C12,C13,C20 #wf_preserved shared*/ !(r matches Poll::Ready(Some(Err(_)))) ==> final(self).wf(),
+            /*@C12,C13,C20 #wf_after_error*/ (r matches Poll::Ready(Some(Err(_)))) ==> final(self).wf(),
             /*@C02,C06 #frame_unchanged*/ final(self).ranges == old(self).ranges && final(self).entity == old(self).entity && final(self).part_headers@.len() == old(self).part_headers@.len(),
             /*@C01,C12 #accounting shared*/ match r {
                 Poll::Ready(Some(Ok(d))) => d.bytes().len() <= old(self).remaining && final(self).remaining == old(self).remaining - d.bytes().len(),
@@ -182,7 +182,7 @@ impl<D: DataT, E: FromBoxError> MultipartStream<D, E> {
                                 && #[trigger] s.next_item() == r))
             },
     //@body
-    //@ loop 1: invariant /*@C01,C06,C07,C12,C20 #inv_wf shared*/ this.wf(), /*@C01,C12 #inv_remaining_untouched_until_a_frame_is_returned shared*/ this.remaining == old(self).remaining, *final(this) == *final(self),
+    //@ loop 1: invariant /*@C01,C06,C07,C12,C13,C20 #inv_wf shared*/ this.wf(), /*@C01,C12 #inv_remaining_untouched_until_a_frame_is_returned shared*/ this.remaining == old(self).remaining, *final(this) == *final(self),
     //@ | this.ranges == old(self).ranges, this.entity == old(self).entity, this.part_headers@ == old(self).part_headers@,
     //@ | this.state == old(self).state || (this.state == old(self).state + 1 && this.state % 2 == 0 && this.cur.is_none()),
     //@ | old(self).terminal() ==> this.terminal(),
